@@ -560,6 +560,13 @@ theorem color_only_painted_bytes_show_input_line_combined (mc : Machine.Cfg) (ps
     (htext pre hdt) hns out h]
   exact htxt
 
+/-- `hns` holds whenever the caller does not ask for the space fill — the removed / added lines (`paint_minus_and_plus_lines`:
+`BgShouldFill::default()`, the ANSI fill) — whatever the styles and the arms of the fill decision: only context lines
+(`paint_zero_line`) can be padded. -/
+theorem no_space_fill_unless_requested (pc : PaintLine.Cfg) (inp : PaintLine.Input) (h : inp.bg ≠ .with_ .spaces) :
+    noSpaceFill pc inp = true :=
+  ColorOnlyPaintProofs.noSpaceFill_of_request pc inp h
+
 /-- **A block of lines** (what one call of `paint_lines` writes: the removed lines or the added lines of a subhunk, or one
 context line): every output line shows the prefix of its own state and its own text. -/
 theorem color_only_painted_block_shows_each_line (pc : PaintLine.Cfg) (hpc : PaintLineProofs.Cfg.wf pc)
